@@ -64,10 +64,28 @@ structure LexCfg where
   realBuf : Nat
   /-- `REAL_NUM_PRECISION` -/
   realPrecision : Nat
+  /-- `CheckRemainingInput` takes a NUL byte for a delimiter: a bare `strchr(",)", c)` also matches the terminating NUL of
+      the list (the default is the unrepaired behaviour; fixes/C09-7 tests `c != '\0'` first) -/
+  nulIsDelim : Bool := true
+  /-- `ReadReal` reports a failed conversion unless the input was blank (`!blank`); otherwise only when characters were
+      collected (`!buf.empty()`), so that something that does not start a real in place of the value goes unreported
+      by `ReadReal` itself (fixes/C09-8) -/
+  realFailUnlessBlank : Bool := false
+  /-- `ReadEntityRef` reports a character that is neither `#`/`@` nor a delimiter where the reference should be
+      (fixes/C09-8); otherwise that is left to `CheckRemainingInput` alone -/
+  refReportsNonRef : Bool := false
 deriving Repr, DecidableEq
 
-/-- `strchr(delimiterList, c) != NULL` — note that the terminating NUL of the list matches byte 0 -/
-def isDelim (ds : List Byte) (c : Byte) : Bool := c == 0 || ds.contains c
+/-- `c` is one of the characters of the delimiter list -/
+def isDelim (ds : List Byte) (c : Byte) : Bool := ds.contains c
+
+/-- the delimiter test of `CheckRemainingInput`: `strchr(delimiterList, c) != NULL` — the terminating NUL of the list
+    matches byte 0 — or, repaired, `c != '\0' && strchr(delimiterList, c) != NULL` -/
+def delimAt (cfg : LexCfg) (ds : List Byte) (c : Byte) : Bool := (cfg.nulIsDelim && c == 0) || isDelim ds c
+
+/-- a character of the list is a delimiter in every configuration -/
+@[simp] theorem delimAt_of_isDelim (cfg : LexCfg) (ds : List Byte) (c : Byte) (h : isDelim ds c = true) :
+    delimAt cfg ds c = true := by simp [delimAt, h]
 
 /-- the delimiter list `",)"` every `STEPattribute::STEPread` call passes -/
 def attrDelims : List Byte := [44, 41]
@@ -76,9 +94,9 @@ def attrDelims : List Byte := [44, 41]
 
 /-- the recovery loop `for( in.get(c); in && !strchr(dl,c); in.get(c) )` on a good stream:
     returns (last value of `c`, consumed side, rest, ran into the end) -/
-def skipTo (ds : List Byte) : Byte → List Byte → List Byte → Byte × List Byte × List Byte × Bool
+def skipTo (cfg : LexCfg) (ds : List Byte) : Byte → List Byte → List Byte → Byte × List Byte × List Byte × Bool
   | c, l, [] => (c, l, [], true)
-  | _, l, x :: r => if isDelim ds x then (x, x :: l, r, false) else skipTo ds x (x :: l) r
+  | _, l, x :: r => if delimAt cfg ds x then (x, x :: l, r, false) else skipTo cfg ds x (x :: l) r
 
 /-- body of a comment after `/*` (`prev` = previous character, 0 at the start): consumes through the closing `*/`;
     `none` = unterminated, everything was consumed -/
@@ -118,11 +136,11 @@ def checkRemainingInput (cfg : LexCfg) (delims : Option (List Byte)) (s : IStrea
       match delims with
       | some ds =>
         let (c, s2) := s1.peekC
-        if isDelim ds c then (s2, err)
+        if delimAt cfg ds c then (s2, err)
         else
-          let (c', l, r, hitEnd) := skipTo ds c s2.left s2.right
+          let (c', l, r, hitEnd) := skipTo cfg ds c s2.left s2.right
           let s3 : IStream := { s2 with left := l, right := r, eof := hitEnd, fail := hitEnd }
-          if isDelim ds c' then (s3.putback c', err.greater .warning)
+          if delimAt cfg ds c' then (s3.putback c', err.greater .warning)
           else (s3, err.greater .inputError)
       | none => if s1.good then (s1, err.greater .warning) else (s1, err)
 
@@ -183,7 +201,8 @@ def readReal {F} (ops : FloatOps F) (cfg : LexCfg) (delims : Option (List Byte))
   if !s1.good then
     -- every peek/get fails (or sets failbit): nothing collected, `in2 >> d` fails on the empty text
     let s2 : IStream := { s1 with fail := true }
-    let (s3, err2) := checkRemainingInput cfg delims s2 err
+    let err1 := err.warnIf (cfg.realReportsFail && cfg.realFailUnlessBlank && !s1.eof)    -- `!blank`
+    let (s3, err2) := checkRemainingInput cfg delims s2 err1
     .ok (none, s3, err2)
   else
     let (buf, rest, e) := realCollect s1.right
@@ -198,7 +217,7 @@ def readReal {F} (ops : FloatOps F) (cfg : LexCfg) (delims : Option (List Byte))
         let (s3, err2) := checkRemainingInput cfg delims s2 (err.greater e)
         .ok (some v, s3, err2)
       | _ =>
-        let err1 := err.warnIf (cfg.realReportsFail && !buf.isEmpty)
+        let err1 := err.warnIf (cfg.realReportsFail && (cfg.realFailUnlessBlank || !buf.isEmpty))
         let (s3, err2) := checkRemainingInput cfg delims s2 err1
         .ok (none, s3, err2)
 
@@ -416,6 +435,12 @@ def refTail (cfg : LexCfg) (lookup : Int → RefLookup) (delims : Option (List B
     | .wrongType => (none, s4, e.greater .warning)
     | .missing => (none, s4, e.greater .warning)
 
+/-- `c == '\0' || !tokenList || !strchr( tokenList, c )` in the `default:` branch of `ReadEntityRef` -/
+def refNotDelim (delims : Option (List Byte)) (c : Byte) : Bool :=
+  match delims with
+  | some ds => c == 0 || !isDelim ds c
+  | none => true
+
 /-- `ReadEntityRef` followed by the `EntityValidLevel` test in `STEPattribute::STEPread`; value = file id -/
 def readEntityRef (cfg : LexCfg) (lookup : Int → RefLookup) (delims : Option (List Byte)) (s : IStream) (err : Sev) :
     Option Int × IStream × Sev :=
@@ -425,7 +450,8 @@ def readEntityRef (cfg : LexCfg) (lookup : Int → RefLookup) (delims : Option (
   if (c == 35 || c == 64) && oc.isSome then
     refTail cfg lookup delims s2 (if c == 64 then err.greater .warning else err)
   else
-    let (s3, e) := checkRemainingInput cfg delims (s2.putback c) err
+    let err1 := err.warnIf (cfg.refReportsNonRef && oc.isSome && refNotDelim delims c)
+    let (s3, e) := checkRemainingInput cfg delims (s2.putback c) err1
     (none, s3, e)
 
 /-! ## STEPattribute::STEPread / STEPwrite -/
